@@ -11,6 +11,7 @@ import (
 	"encoding/hex"
 	"flag"
 	"fmt"
+	"github.com/henrylee2cn/erpc/v6/plugin/secure"
 	"runtime"
 	"strings"
 	"time"
@@ -53,11 +54,14 @@ func HStruct(ctx erpc.CallCtx, arg *wire.TStruct) (*wire.TStruct, *erpc.Status) 
 type input struct {
 	Class   string // scenario class (fingerprint)
 	Bytes   []byte
-	Intact  bool  // framing intact: the peer is between frames after consuming it, a probe call is meaningful
-	Oversz  bool  // announces a size above the limit and withholds the payload: must be disconnected
-	Pending bool  // the victim has a call pending towards the script; Bytes are (hostile) replies
-	Bomb    bool  // decompression bomb
-	Fed     int64 // bytes fed
+	Intact  bool                      // framing intact: the peer is between frames after consuming it, a probe call is meaningful
+	Oversz  bool                      // announces a size above the limit and withholds the payload: must be disconnected
+	Pending bool                      // the victim has a call pending towards the script; Bytes are (hostile) replies
+	Mut     func(reply []byte) []byte `json:"-"` // Pending: applied to a well-formed REPLY frame for the pending call
+	Res     string                    // Pending: the caller's result receiver (struct, bytes, pbgen, nil)
+	ReplyPB []byte                    // Pending with Res pbgen: the protobuf reply body
+	Bomb    bool                      // decompression bomb
+	Fed     int64                     // bytes fed
 }
 
 func u32(v uint32) []byte {
@@ -183,6 +187,79 @@ func gen(p protos.P, limit uint32, r *core.Rand, routes map[string]string, valid
 	}
 }
 
+// pbReplyBodies: reply bodies under the protobuf codec for a result type with a generated decoder (secure.Encrypt)
+var pbReplyBodies = [][]byte{
+	{0x0a, 0x02, 'v', '1', 0x12, 0x03, 'a', 'b', 'c'},
+	append([]byte{0x0a, 0x01, 'v', 0x12}, 0xf5, 0xff, 0xff, 0xff, 0xff, 0xff, 0xff, 0xff, 0x7f),
+	{0x0a, 0x01, 'v', 0x12, 0xff, 0xff, 0xff, 0xff, 0x07, 'x'},
+	{0x0a, 0x01, 'v', 0x12, 0x80},
+	{0x0d, 0x01, 0x02, 0x03, 0x04, 0x12, 0x01, 'x'},
+	{0x0c, 0x12, 0x01, 'x'},
+	{0x0a, 0xff, 0xff, 0xff, 0xff, 0xff, 0xff, 0xff, 0xff, 0xff, 0x01},
+	{},
+}
+
+// genPending: the victim is the CALLING side - it has one call pending and receives a (hostile) reply to it. The reply is
+// derived at run time from a well-formed REPLY frame carrying the pending call's sequence number.
+func genPending(p protos.P, limit uint32, r *core.Rand) input {
+	sized := p.Name == "raw" || p.Name == "json" || p.Name == "pb"
+	res := []string{"struct", "bytes", "pbgen", "nil"}[r.Intn(4)]
+	in := input{Pending: true, Res: res}
+	if res == "pbgen" {
+		in.ReplyPB = pbReplyBodies[r.Intn(len(pbReplyBodies))]
+	}
+	seedv := int64(r.Uint64() >> 1)
+	switch x := r.Intn(12); {
+	case x < 2:
+		in.Class, in.Intact = "reply-valid", true
+		in.Mut = func(f []byte) []byte { return f }
+	case x < 5:
+		in.Class = "reply-bitflip"
+		in.Mut = func(f []byte) []byte {
+			rr := core.NewRand(seedv)
+			b := append([]byte(nil), f...)
+			for i := 0; i < 1+rr.Intn(3); i++ {
+				b[rr.Intn(len(b))] ^= 1 << uint(rr.Intn(8))
+			}
+			return b
+		}
+	case x < 7:
+		in.Class = "reply-truncated"
+		in.Mut = func(f []byte) []byte { return append([]byte(nil), f[:core.NewRand(seedv).Intn(len(f))]...) }
+	case x < 9:
+		in.Class = "reply-byte-boundary"
+		in.Mut = func(f []byte) []byte {
+			rr := core.NewRand(seedv)
+			b := append([]byte(nil), f...)
+			b[rr.Intn(len(b))] = []byte{0x00, 0xFF, 0x7F, 0x80, 0x01}[rr.Intn(5)]
+			return b
+		}
+	case x < 10 && sized:
+		in.Class = "reply-size-field-boundary"
+		in.Mut = func(f []byte) []byte {
+			v := []uint32{0, 1, 4, 5, limit, uint32(len(f)) - 3, uint32(len(f)) + 1}[core.NewRand(seedv).Intn(7)]
+			return append(u32(v), f[4:]...)
+		}
+	case x < 11 && sized:
+		in.Class, in.Oversz = "reply-oversize-announced", true
+		in.Mut = func(f []byte) []byte {
+			v := []uint32{limit + 1, 1<<31 - 1, 1<<32 - 1}[core.NewRand(seedv).Intn(3)]
+			if v <= limit {
+				v = 1<<32 - 1
+			}
+			return append(u32(v), f[4:4+(len(f)-4)/2]...)
+		}
+	default:
+		in.Class = "reply-twice-then-junk"
+		in.Mut = func(f []byte) []byte {
+			return append(append(append([]byte(nil), f...), f...), core.NewRand(seedv).Bytes(5)...)
+		}
+	}
+	if res == "pbgen" {
+		in.Class += "+pbgen"
+	}
+	return in
+}
 
 // ---- websocket victim: real handshake over memconn, then raw bytes (hand-built hybi frames) ----
 
@@ -264,7 +341,6 @@ func dialVictim(srv erpc.Peer, p protos.P, ws bool) (*victim, error) {
 	}
 	return &victim{sess: sess, write: func(b []byte) { c.Write(b) }, recv: c.Received, close_: c.Close}, nil
 }
-
 
 // genWS builds websocket-level inputs: valid holds the sub-protocol payloads of valid messages.
 func genWS(limit uint32, r *core.Rand, valid [][]byte) input {
@@ -407,6 +483,9 @@ func main() {
 			in = exhaustive[k]
 		} else {
 			in = gen(p, effLimit, r, routes, valid)
+			if p.Stream && !p.Struct && r.Intn(4) == 0 {
+				in = genPending(p, effLimit, r)
+			}
 		}
 		id := fmt.Sprintf("b%d.%d", *batch, k)
 		hx := hex.EncodeToString(in.Bytes)
@@ -432,8 +511,48 @@ func main() {
 			core.Result(core.R{ID: id, Verdict: core.Inconclusive, What: derr.Error()})
 			continue
 		}
-		c.write(in.Bytes)
+		var pend erpc.CallCmd
 		var viols [][2]string
+		if in.Pending {
+			// the victim calls the script; the script answers with the (mutated) reply
+			var result interface{}
+			replyCodec, replyBody := byte(codec.ID_JSON), []byte(`{"tok":"r","pay":"q"}`)
+			switch in.Res {
+			case "struct":
+				result = new(tok.Arg)
+			case "bytes":
+				result = new([]byte)
+			case "pbgen":
+				result = new(secure.Encrypt)
+				replyCodec, replyBody = codec.ID_PROTOBUF, in.ReplyPB
+			}
+			pend = c.sess.AsyncCall("/remote/method", &tok.Arg{Tok: "t", Pay: "p"}, result, make(chan erpc.CallCmd, 1), erpc.WithBodyCodec(codec.ID_JSON))
+			var seq int32
+			sawCall := bed.WaitUntil(10*time.Second, func() bool {
+				got, _ := c.recv()
+				fs, _ := rawpeer.Parse(p, got)
+				for _, f := range fs {
+					if f.Mtype == erpc.TypeCall {
+						seq = f.Seq
+						return true
+					}
+				}
+				return false
+			})
+			rf, perr := rawpeer.Pack(p, wire.Spec{Seq: seq, Mtype: erpc.TypeReply, Codec: replyCodec, Body: replyBody, Class: map[string]string{}})
+			if !sawCall || perr != nil || len(rf) == 0 {
+				core.Result(core.R{ID: id, Verdict: core.Inconclusive, What: "the victim's CALL frame was not seen"})
+				c.close_()
+				quiesce.Wait(quiesce.Options{Timeout: 30 * time.Second})
+				continue
+			}
+			in.Bytes = in.Mut(rf[0])
+			desc["len"], desc["hex"], desc["result_receiver"] = len(in.Bytes), hex.EncodeToString(in.Bytes), in.Res
+			core.Add("hostile_replies_to_a_pending_call", 1)
+			runtime.ReadMemStats(&m0)
+			utils.VerifMaxAlloc(true)
+		}
+		c.write(in.Bytes)
 		q := quiesce.Wait(quiesce.Options{Timeout: 30 * time.Second})
 		if !q.Quiescent {
 			core.Result(core.R{ID: id, Verdict: core.Inconclusive, What: "watchdog: not quiescent after feeding"})
@@ -502,6 +621,14 @@ func main() {
 			}
 			if c.sess != nil && c.sess.Health() {
 				viols = append(viols, [2]string{"still-healthy-after-eof", "session reports healthy after its connection ended"})
+			}
+			if pend != nil {
+				select {
+				case <-pend.Done():
+				default:
+					viols = append(viols, [2]string{"pending-call-wedged", "the call that was pending when the reply bytes arrived is still incomplete after the connection ended and the process is quiescent: " +
+						strings.Join(quiesce.Brief(quiesce.Blocked(q.Dump, "github.com/henrylee2cn/erpc/v6.")), " ;; ")})
+				}
 			}
 		}
 		// the control session keeps working
